@@ -35,6 +35,20 @@ Definition sapi_step (l : list Z) : list Z :=
       (* a running coroutine queues nq waiters (discarded suspend point), then calls coro_queue::resume(h) (coro_queue.h:130-138:
          coroutine mode => push_back), logs 0 and finishes; then the flush: the waiters in chain order, then h (logs 50) *)
       if in_range nq 0 8 then [0; 0; 0; 0] ++ desc (Z.to_nat nq) 1 ++ [50] else [1]
+  | [5; n] =>
+      (* sp = co_await self(); sp << child_i.detach() for i = 1..n; co_await sp  (suspend_point.h:167-183): the last handle runs by
+         symmetric transfer; the awaiter's own handle, found inside the suspend point, is queued ONCE (not appended again); then
+         the other children.  n = 0: the popped handle is the awaiter itself, it simply continues. *)
+      if in_range n 0 8 then
+        match Z.to_nat n with
+        | O => [0; 0; 0; 0]
+        | S k => [0; 0; 0] ++ [n] ++ [0] ++ rev (desc k 1)
+        end
+      else [1]
+  | [6; n] =>
+      (* a running coroutine calls clear() on a suspend point holding n waiters (suspend_point.h:108-110 = suspend_now: coroutine
+         mode queues them), logs 0, finishes; then the flush in chain order *)
+      if in_range n 0 8 then [0; 0; 0; 0] ++ desc (Z.to_nat n) 1 else [1]
   | _ => [1]
   end.
 Definition sapi_run (ops : list (list Z)) : list (list Z) := map sapi_step ops.
@@ -53,6 +67,12 @@ Definition sapi_ok (op o : list Z) : bool :=
   | [4; nq], 0 :: act :: ql :: order =>
       (* nothing resumed before the caller went on (its marker 0 comes first), everything resumed once, FIFO: h last *)
       (act =? 0) && (ql =? 0) && perm_b order (0 :: 50 :: desc (Z.to_nat nq) 1) && (hd 1 order =? 0) && (last order 1 =? 50)
+  | [5; n], 0 :: act :: ql :: order =>
+      (* everybody resumed exactly once — in particular the awaiter itself (0) *)
+      (act =? 0) && (ql =? 0) && perm_b order (0 :: desc (Z.to_nat n) 1)
+  | [6; n], 0 :: act :: ql :: order =>
+      (* clear() does not pre-empt the caller: its marker first; everybody once *)
+      (act =? 0) && (ql =? 0) && perm_b order (0 :: desc (Z.to_nat n) 1) && (hd 1 order =? 0)
   | _, [1] => true
   | _, _ => false
   end.
